@@ -49,6 +49,19 @@ theorem trapz_short (x : List K) (y : List K) (h : x.length < 2 ∨ y.length < 2
     · rfl
     · exfalso; simp at h; omega
 
+/-- integrals scale with the unit of the axis: ∫ y d(s·x) = s · ∫ y dx (any factor, any axis) -/
+theorem trapz_scale (s : K) : ∀ (x y : List K),
+    trapz (fieldArith K) (x.map (s * ·)) y = s * trapz (fieldArith K) x y
+  | [], y => by simp [trapz_short]
+  | [x0], y => by simp [trapz_short]
+  | x0 :: x1 :: xs, [] => by simp [trapz_short]
+  | x0 :: x1 :: xs, [y0] => by simp [trapz_short]
+  | x0 :: x1 :: xs, y0 :: y1 :: ys => by
+    simp only [List.map_cons, trapz_cons]
+    have ih := trapz_scale s (x1 :: xs) (y1 :: ys)
+    simp only [List.map_cons] at ih
+    rw [ih]; ring
+
 /-- integrate is linear in the data (any coordinate axis, uniform or not) -/
 theorem trapz_linear (a b : K) : ∀ (x y z : List K), y.length = z.length →
     trapz (fieldArith K) x (List.zipWith (fun u v => a * u + b * v) y z)
